@@ -28,6 +28,11 @@ Qed.
 
 Ltac by_check := apply (both_alignments _ _ _ _ _ _ None); [vm_compute; reflexivity | assumption | try (intros ? [=]) | try (intros ? ? ? [=])].
 
+Lemma hook_wrappers_ok :
+  map fst hook_wrappers = ["mcount_entry"; "mcount_exit"; "plthook_entry"; "plthook_exit"; "xray_entry"; "xray_exit"]%string /\
+  forallb (fun p => fst (snd p) && snd (snd p)) hook_wrappers = true.
+Proof. vm_compute. split; reflexivity. Qed.
+
 (* ---- entry stubs ---- *)
 Theorem fentry_ok W regs xmm mem zf : regs RSP mod 8 = 0 ->
   stub_guarantee W regs xmm mem zf None spec_fentry stub___fentry__.
@@ -96,7 +101,7 @@ Proof. vm_compute. reflexivity. Qed.
    run really ends at the expected place *)
 Definition nv_world : world :=
   {| w_regs := fun n r => 1000 + Z.of_nat n; w_mem := fun n a => 7; w_zf := fun _ => true;
-     w_glob := fun _ _ => 555 |}.
+     w_glob := fun _ _ => 555; w_xmm := fun n i => (1, 2); w_ctx := fun _ _ => 9 |}.
 Definition nv_regs (r : reg) : Z :=
   match r with RSP => 4096 + 8 | RBP => 4096 + 64 | RAX => 1 | RBX => 2 | RCX => 3 | RDX => 4 | RSI => 5 | RDI => 6
              | R8 => 8 | R9 => 9 | R10 => 10 | R11 => 11 | R12 => 12 | R13 => 13 | R14 => 14 | R15 => 15 end.
